@@ -34,7 +34,7 @@ def gen(rng: random.Random, tier: str):
                "run_n": rng.choice([None, None, -1, 0, 2, 5, 50]), "us": [rng.uniform(1e-6, 1) for _ in range(nfin)],
                "perm": rng.sample(range(N), N), "kind": "stochastic" if k % 4 else "random"}
     if tier == "thorough":
-        yield {"kind": "odds", "weights": [1.0, 2.0, 3.0, 0.5], "draws": 6000, "seed": rng.randrange(10**6)}
+        yield {"kind": "odds", "weights": [1.0, 2.0, 3.0, 0.5], "draws": 20000, "seed": rng.randrange(10**6)}
 
 def _f(x): return {"nan": math.nan, "inf": math.inf, "-inf": -math.inf}.get(x, x)
 
@@ -49,7 +49,7 @@ def run(case: dict, lean: Lean) -> Outcome:
         il = ItemList(item_ids=list(range(len(w))), scores=np.array(w))
         for _ in range(case["draws"]): first[int(rk(il).ids()[0])] += 1
         dev = [abs(f / case["draws"] - x / tot) / math.sqrt((x / tot) * (1 - x / tot) / case["draws"]) for f, x in zip(first, w)]
-        ok = max(dev) < 4.5
+        ok = max(dev) < 6.0          # false-alarm probability ≈ 8e-9 per run
         return Outcome(True, ok, ("first-position odds",), {"first": first, "z": dev}, None)
     raw = [_f(x) for x in case["scores"]]; N = len(raw)
     fin = [x for x in raw if math.isfinite(x)]
